@@ -35,7 +35,7 @@ mutual
     | "H" :: r => do let (t, r) ← pOp r; pure (.chol t, r)
     | "HU" :: r => do let (t, r) ← pOp r; pure (.cholU t, r)
     | "K" :: r => do let (a, r) ← pOp r; let (b, r) ← pOp r; pure (.kron a b, r)
-    | "KT" :: r => do let (a, r) ← pOp r; let (b, r) ← pOp r; pure (.kronTri a b, r)
+    | "KT" :: r => do let (u, r) ← pNat r; let (a, r) ← pOp r; let (b, r) ← pOp r; pure (.kronTri (u == 1) a b, r)
     | "KD" :: r => do let (a, r) ← pOp r; let (b, r) ← pOp r; pure (.kronDiag a b, r)
     | "AD" :: r => do let (a, r) ← pOp r; let (b, r) ← pOp r; pure (.addedDiag a b, r)
     | "KAD" :: r => do let (a, r) ← pOp r; let (b, r) ← pOp r; pure (.kronAddedDiag a b, r)
